@@ -90,11 +90,11 @@ type SampleRec struct {
 }
 
 type poolOpts struct {
-	Workers   int
-	ChunkSize int           // paths per chunk before a worker hands its work-list back
-	Deadline  time.Time     // stop scheduling after this instant
-	MaxPaths  int           // global path cap (0 = none)
-	Budget    int64         // instruction budget per path
+	Workers                 int
+	ChunkSize               int       // paths per chunk before a worker hands its work-list back
+	Deadline                time.Time // stop scheduling after this instant
+	MaxPaths                int       // global path cap (0 = none)
+	Budget                  int64     // instruction budget per path
 	SampleEvery, MaxSamples int
 }
 
